@@ -31,6 +31,8 @@ Clauses(r) ==
       [] r.k = "diag"      -> << <<"diagonal=definition", Len(r.out) = r.A.n /\ DiagonalOK(r.A, r.out)>> >>
       [] r.k = "diaginv"   -> << <<"inverse-diagonal", r.out = r.want>> >>
       [] r.k = "copy"      -> << <<"copy-preserves-storage", CopyOK(r)>> >>
+      [] r.k = "blockconv" -> << <<"block-adapter-convert=same-operator",
+                                   WellFormed(r.out) /\ SameOperator(r.out, r.A)>> >>
       [] r.k = "gersh"     -> << <<"gershgorin=definition", r.out = GershgorinDef(r.A)>> >>
       [] r.k = "gershs"    -> << <<"gershgorin-scaled=definition", r.out = GershgorinScaledDef(r.A)>> >>
       [] r.k = "specobs"   -> << <<"gershgorin>=rho", r.gersh >= r.rho /\ r.gershS >= r.rhoS>>,
